@@ -53,6 +53,14 @@ func families() []Scenario {
 		add("variadic-close-race", sub(0, "prompt"), bgo(1, 0, 3), subN(1, "prompt", "prompt", "slow", "prompt"), closeS(1), bgo(2, 0, 3), quiesce)
 	}
 	add("variadic-after-close", closeS(1), quiesce, subN(0, "prompt", "prompt"), bgo(1, 0, 2), quiesce, closeS(1), quiesce)
+	// Close must wait for the forwarders: a forwarder is held (hook) after it took a value; Close is
+	// called; a reader starts a blocking receive; the forwarder is released and finds both closeCh
+	// closed and a receiver waiting (the select picks at random).  With wg.Wait the delivery, if any,
+	// precedes the return of Close; without it Close has long returned.
+	for i := 0; i < 10; i++ {
+		add("close-waits-for-forwarder", sub(0, "stalled"), Step{Op: "park", H: 0}, bgo(1, 0, 2), settle(3), quiesce,
+			closeS(1), Step{Op: "waitret", N: 25}, Step{Op: "rblock", H: 0, N: 60}, Step{Op: "unpark", H: 0}, settle(3), quiesce)
+	}
 	add("after-close", sub(0, "prompt"), bgo(1, 0, 2), quiesce, drain, closeS(1), quiesce, bgo(2, 0, 2), sub(1, "prompt"), quiesce, closeS(1), quiesce)
 	add("no-subscribers", bgo(1, 0, 3), quiesce, closeS(2), quiesce)
 	add("close-during-traffic", sub(0, "prompt"), sub(1, "slow"), sub(2, "stalled"), bgo(1, 0, 8), bgo(2, 0, 8), settle(2), closeS(1), quiesce)
